@@ -300,6 +300,13 @@ func joinTokens(toks []string, st *styler) string {
 		}
 	}
 	for i, tk := range toks {
+		// a line may also be continued in the middle of a token: the pieces are joined as they are
+		if st != nil && len(tk) >= 2 && st.next()%4 == 0 {
+			p := 1 + int(st.next())%(len(tk)-1)
+			if tk[p-1] != ' ' && tk[p-1] != '\t' && tk[p-1] != '\\' && tk[p] != ' ' && tk[p] != '\t' && tk[p] != '#' && tk[p] != '`' {
+				tk = tk[:p] + "\\\n" + tk[p:]
+			}
+		}
 		sb.WriteString(tk)
 		if i == len(toks)-1 {
 			break
